@@ -4,7 +4,7 @@
    tolerance that covers the rounding (relative 1/40 of the squared scale for quadratic forms):
      unit / ball      : sum |v_k|^2 = S^2  (<= S^2)
      real             : no imaginary parts
-     hermitian        : M = M^dagger                                       trace1 : Tr M = S
+     hermitian        : M = M^dagger (one unit per component)              trace1 : Tr M = S
      gram             : A A^dagger = S * M  with A of at most `cols` columns - a CERTIFICATE of positive semidefiniteness and of
                         rank <= cols (the harness computes A; a matrix that is not PSD / has larger rank has no such A)
      between          : lo * S * I <= M <= hi * S * I  by two gram certificates (eigenvalue range)
@@ -26,7 +26,9 @@ AAd(A, i, j) == GSum([k \in 1..Len(A[1]) |-> GMul(A[i][k], GConj(A[j][k]))])
 UdU(U, i, j) == GSum([k \in 1..Len(U) |-> GMul(GConj(U[k][i]), U[k][j])])
 GramOK(A, M, S, cols) == /\ Len(A) = Len(M) /\ (Len(A) > 0 => Len(A[1]) <= cols)
                          /\ \A i, j \in 1..Len(M) : Near(AAd(A, i, j), GScale(S, M[i][j]), Tol2(S))
-HermOK(M) == \A i, j \in 1..Len(M) : Len(M[i]) = Len(M) /\ M[i][j] = GConj(M[j][i])
+\* Hermitian up to ONE unit per component: the two entries are rounded separately, and values that agree to the last bit of single
+\* precision can fall on different sides of a rounding boundary (exact equality was a false alarm of the thorough tier: Trace1PSD float32)
+HermOK(M) == \A i, j \in 1..Len(M) : Len(M[i]) = Len(M) /\ Near(M[i][j], GConj(M[j][i]), 1)
 TraceOK(M, S) == IAbs(FoldLeft(LAMBDA a, i : a + M[i][i][1], 0, [i \in 1..Len(M) |-> i]) - S) <= Len(M) + 1
 IsoOK(U, S) == \A i, j \in 1..Len(U[1]) : Near(UdU(U, i, j), IdEntry(i, j, S * S), Tol2(S))
 CoIsoOK(U, S) == \A i, j \in 1..Len(U) : Near(AAd(U, i, j), IdEntry(i, j, S * S), Tol2(S))
